@@ -237,7 +237,8 @@ class Check:
                     keyseq0 = [row[1:1 + len(keys)] for row in rows0]
                 for N in ns:
                     q = build(N)
-                    r = sb.run([q], plan=plan, tz=case["tz"])
+                    # a huge limit is a number, not a size: the run must fit into an ordinary address space
+                    r = sb.run([q], plan=dict(plan, aslimit=4 << 30) if N >= 2 ** 31 - 1 else plan, tz=case["tz"])
                     if r.sim or r.status not in (0, 1) or r.signal is not None:
                         viols.append(Violation(PROP, "C06.run", ["C06.run", "abnormal_end", shape], {"query": q, "outcome": r.summary()}))
                         return viols
